@@ -233,7 +233,28 @@ fn case(target: &str, rng: &mut Rng) -> Option<(String, String, String, usize)> 
 }
 
 // ---- C06: the real normaliser / syntactic equality / conversion check against the reference ------------------
-fn plain_ctx() -> Vec<Option<(Rc<Term<'static>>, usize)>> { (0..8).map(|_| None).collect() }
+// a context of 8 entries; with `defs`, some entries are let-bound: (definition, offset) with p + offset <= 8 and the
+// definition closed in the prefix of length p + offset (what the type checker pushes for the definitions of a group)
+fn gen_ctx(rng: &mut Rng, defs: bool) -> reference::RCtx {
+    (0..8usize).map(|p| {
+        if !defs || rng.below(3) != 0 { return None; }
+        let off = 1 + rng.below((8 - p) as u64) as usize;
+        let scope = p + off;
+        let dd = 1 + rng.below(2) as u32;
+        let d = if scope >= 3 { gen_term(rng, dd, (scope - 2) as u64) } else { R::Node(K::Lit(BigInt::from(rng.below(5) as i64 - 2)), vec![]) };
+        Some((d, off))
+    }).collect()
+}
+fn real_ctx(c: &reference::RCtx) -> Vec<Option<(Rc<Term<'static>>, usize)>> {
+    c.iter().map(|e| e.as_ref().map(|(d, off)| (Rc::new(from_r(d)), *off))).collect()
+}
+fn show_ctx(c: &reference::RCtx) -> String {
+    if c.iter().all(|e| e.is_none()) { return "8 plain context entries".to_owned(); }
+    format!("the context [{}]", c.iter().map(|e| match e { None => "_".to_owned(), Some((d, off)) => format!("{} @{}", reference::show(d), off) }).collect::<Vec<_>>().join(", "))
+}
+fn same_ctx(a: &[Option<(Rc<Term<'static>>, usize)>], c: &reference::RCtx) -> bool {
+    a.len() == c.len() && a.iter().zip(c.iter()).all(|(x, y)| match (x, y) { (None, None) => true, (Some((d, o)), Some((d2, o2))) => o == o2 && to_r(d) == *d2, _ => false })
+}
 
 // a variant of t that is often, but not always, equal to it up to erasure
 fn perturb(t: &R, rng: &mut Rng) -> R {
@@ -275,11 +296,15 @@ fn case_conv(target: &str, rng: &mut Rng) -> Option<(String, String, String, usi
     match target {
         "normalize_weak_head" => {
             let mut fuel = 400u32;
-            let want = reference::r_whnf(&t, &mut fuel)?;   // skipped when the reference runs out of fuel (possible divergence)
-            let mut ctx = plain_ctx();
+            let with_defs = rng.below(2) == 0;
+            let rctx = gen_ctx(rng, with_defs);
+            let want = reference::r_whnf(&t, &rctx, &mut fuel)?;   // skipped when the reference runs out of fuel (possible divergence)
+            let mut ctx = real_ctx(&rctx);
             let got = to_r(&normalizer::normalize_weak_head(&real_t, &mut ctx));
-            if ctx.len() != 8 || ctx.iter().any(|e| e.is_some()) { return Some((format!("normalize_weak_head({}) under 8 plain context entries{tag}", reference::show(&t)), format!("context of length {}", ctx.len()), "context unchanged".to_owned(), size(&t))); }
-            if got != want { return Some((format!("normalize_weak_head({}) under 8 plain context entries{tag}", reference::show(&t)), reference::show(&got), reference::show(&want), size(&t))); }
+            let input = format!("normalize_weak_head({}) under {}{tag}", reference::show(&t), show_ctx(&rctx));
+            let weight = size(&t) + rctx.iter().map(|e| e.as_ref().map_or(0, |(d, _)| size(d))).sum::<usize>();
+            if !same_ctx(&ctx, &rctx) { return Some((input, format!("context of length {}", ctx.len()), "context unchanged".to_owned(), weight)); }
+            if got != want { return Some((input, reference::show(&got), reference::show(&want), weight)); }
         }
         "syntactically_equal" => {
             let t2 = if rng.below(4) == 0 { gen_term(rng, depth, 2) } else { perturb(&t, rng) };
@@ -292,12 +317,14 @@ fn case_conv(target: &str, rng: &mut Rng) -> Option<(String, String, String, usi
             let t2 = if rng.below(5) == 0 { t.clone() } else if rng.below(4) == 0 { gen_term(rng, depth, 2) } else { perturb(&t, rng) };
             let real_t2 = from_r(&t2);
             let (mut f1, mut f2) = (600u32, 600u32);
-            let n1 = reference::r_nf(&t, &mut f1)?;        // both must have a normal form within the fuel, otherwise skipped
-            let n2 = reference::r_nf(&t2, &mut f2)?;
-            let mut ctx = plain_ctx();
+            let with_defs = rng.below(3) == 0;
+            let rctx = gen_ctx(rng, with_defs);
+            let n1 = reference::r_nf(&t, &rctx, &mut f1)?;        // both must have a normal form within the fuel, otherwise skipped
+            let n2 = reference::r_nf(&t2, &rctx, &mut f2)?;
+            let mut ctx = real_ctx(&rctx);
             let got = unifier::unify(&real_t, &real_t2, &mut ctx);
-            let input = format!("unify({}, {}) under 8 plain context entries{tag}", reference::show(&t), reference::show(&t2));
-            if ctx.len() != 8 || ctx.iter().any(|e| e.is_some()) { return Some((input, format!("{got}, context of length {}", ctx.len()), "context unchanged".to_owned(), size(&t) + size(&t2))); }
+            let input = format!("unify({}, {}) under {}{tag}", reference::show(&t), reference::show(&t2), show_ctx(&rctx));
+            if !same_ctx(&ctx, &rctx) { return Some((input, format!("{got}, context of length {}", ctx.len()), "context unchanged".to_owned(), size(&t) + size(&t2))); }
             let same_nf = reference::r_erase(&n1) == reference::r_erase(&n2);
             if got && !same_nf { return Some((input, "true".to_owned(), format!("normal forms differ: {} vs {}", reference::show(&n1), reference::show(&n2)), size(&t) + size(&t2))); }
             if !got && reference::r_erase(&t) == reference::r_erase(&t2) { return Some((input, "false".to_owned(), "true (the two terms are equal up to erasure)".to_owned(), size(&t) + size(&t2))); }
